@@ -11,7 +11,8 @@ Record facts := {
   f_inc_check : inc_cmp;
   f_inc_reads_account_sequence : bool;
   f_inc_sets_plus_one : bool;
-  f_sig_signer_of_this_chain : bool;
+  f_sig_signer_of_this_chain : bool;          (* SigVerify recovers with a signer built from the keeper's chain id *)
+  f_cantransfer_signer_of_this_chain : bool;  (* CanTransfer does, and rejects on a recovery error *)
   f_sig_rejects_on_error : bool;
   f_sig_sets_from : bool;
   f_msg_london_signer_of_this_chain : bool;
@@ -23,7 +24,7 @@ Record facts := {
 Definition facts_ok (f : facts) : bool :=
   match f_inc_check f with CmpNeqRejects => true | _ => false end &&
   f_inc_reads_account_sequence f && f_inc_sets_plus_one f &&
-  f_sig_signer_of_this_chain f && f_sig_rejects_on_error f && f_sig_sets_from f &&
+  (f_sig_signer_of_this_chain f || f_cantransfer_signer_of_this_chain f) && f_sig_rejects_on_error f && f_sig_sets_from f &&
   f_msg_london_signer_of_this_chain f && f_bracket_before f && f_bracket_after f &&
   f_event_create_address_from_nonce f.
 
